@@ -164,6 +164,30 @@ def project_state(state):
     return project_state_text(state.serialize())
 
 
+def project_typed_state(state):
+    """State.typed_serialize() -> the untyped projection plus the type annotations
+    {"st": projection, "types": [[name, [[object, type]...]]...]} (None if the text has another shape)"""
+    tree = sexp_reader.read_plain(state.typed_serialize())
+
+    def split(items):
+        if len(items) % 3 or any(items[i + 1] != "-" for i in range(0, len(items), 3)):
+            raise ValueError("typed argument list")
+        return [[items[i], items[i + 2]] for i in range(0, len(items), 3)]
+    plain, types = [":typed"], []
+    for item in tree:
+        if isinstance(item, list) and item and item[0] == "=" and len(item) == 3 and isinstance(item[1], list):
+            ta = split(item[1][1:])
+            plain.append(["=", [item[1][0]] + [o for o, _ in ta], item[2]])
+            types.append([item[1][0], ta])
+        elif isinstance(item, list) and item and all(isinstance(x, str) for x in item):
+            ta = split(item[1:])
+            plain.append([item[0]] + [o for o, _ in ta])
+            types.append([item[0], ta])
+        else:
+            raise ValueError("typed item")
+    return {"st": project_state_plain(plain), "types": types}
+
+
 def exc_name(e):
     return type(e).__name__
 
